@@ -92,6 +92,22 @@ def generate(seed, tier):
                         add('mm', tn, tk, m, Ks[rnd.randrange(3)], kcls * w)
                         if w > 2:
                             add('mm', tn, tk, m, Ks[rnd.randrange(3)], (kcls - 1) * w + rnd.randrange(1, w))
+        # _matmul_base block classes: numSIMDRows in {1,2,3} (M%12==0 -> 3, M<2V -> 1, else 2), numSIMDCols in {2,3}
+        # (N%(3V)==0 && M%(3V)==0 && N>24 -> 3), reached for N beyond the small-N kernels; plus their row/column remainders
+        if not cplx:
+            for isa in (isas if quick else ['sse2', 'avx2', 'avx512']):
+                w = width(base_ty, isa)
+                if w < 2:
+                    continue
+                n3 = 3 * w * max(2, -(-25 // (3 * w)))          # multiple of 3V, > 24 and > 5V
+                if n3 <= 5 * w:
+                    n3 += 3 * w
+                must = [(3 * w, n3), (12 if 12 % (3 * w) == 0 else 3 * w * 4, n3), (12, 6 * w)]
+                opt = [(m, n) for m in (3 * w, 6 * w, 12, 24, 2 * w + 3, w + 1, 4, 5, 13) for n in (6 * w, 6 * w + 1, 6 * w + w - 1, n3, n3 + 2)]
+                pick = must + (rnd.sample(opt, (4 if main else 2)) if quick else opt)
+                for (m, n) in pick:
+                    if m * n <= 6000:
+                        add('mm', tn, tk, m, rnd.choice([2, 3, 5]), n)
         # (iii) larger seeded sample
         for _ in range(6 if quick else 40):
             add('mm', tn, tk, rnd.randrange(5, 41), rnd.randrange(2, 20), rnd.randrange(5, 41))
